@@ -23,8 +23,12 @@ SHAPES = {
     # two commands back to back: helper threads of the first may still be closing their pipe ends
     # while the second creates its pipes (fd numbers are recycled at once)
     "$(A);$(A)": ("stdout2", [([b"one\n"], 0)]),
+    # a two-stage alias pipeline, then a capture: whatever the two stage threads leave behind in the
+    # process-global sys.stdout / sys.stderr meets the next command's alias thread
+    "$(A|B);$(A)": ("pipe-then-capture", [([b"a\n"], 0), ("pass", 0)]),
+    "$(A|B);$(A);$(A)": ("pipe-then-capture2", [([b"a\n"], 0), ("pass", 0)]),
 }
-QUICK = ["$(A)-two-chunks", "!(A)-two-chunks", "$(A|B)", "$(A);$(A)"]
+QUICK = ["$(A)-two-chunks", "!(A)-two-chunks", "$(A);$(A)", "$(A|B);$(A)"]  # "$(A|B)" is a prefix of the last one
 
 _SHAPE = None
 _XSH = None
@@ -45,6 +49,9 @@ def _setup():
     P.time = pysched.time_shim()
     X.time = pysched.time_shim()
     PI.threading = pysched.threading_shim()
+    for red in (getattr(X, "_STDOUT_REDIRECT", None), getattr(X, "_STDERR_REDIRECT", None)):
+        if red is not None:
+            red._lock = pysched.CoLock()  # module-level real lock: would be held across scheduling points
 
 
 def _traced(filtered):
@@ -59,11 +66,18 @@ def _traced(filtered):
             if callable(f) and hasattr(f, "__code__") and name not in ("__repr__", "__str__"):
                 fs.append(f)
     fs += [R.populate_fd_queue, P._read_all, P._drain_stdout, P.safe_readlines, P.safe_readable]
+    # the process-global standard streams are shared state too: who installs / restores / closes them
+    import xonsh.tools as XT
+
+    fs += [R.safe_fdclose, XT._RedirectStream.__enter__, XT._RedirectStream.__exit__, X.FileThreadDispatcher.register, X.FileThreadDispatcher.deregister, X.FileThreadDispatcher.close]
+    shared = getattr(X, "_SharedRedirect", None)
+    if shared is not None:
+        fs += [shared.__enter__, shared.__exit__, shared.current]
     codes = pysched.codes_of(*fs)
     if filtered:
         return pysched.shared_lines(
             codes,
-            [r"\.closed\b", r"\.queue\b", r"is_alive|\.join\(|\.wait\(|\.poll\(", r"returncode", r"read_queue|readlines|iterqueue|read\(", r"close_writer|close_reader|_write_fd|_read_fd|_lock", r"os\.read|queue\.(put|get)", r"\.start\(", r"time\.sleep|sleep\(", r"hasattr\(self", r"prevs_are_closed|_closed_handle_cache|\.lines\b|_raw_output|\.ended\b|yield"],
+            [r"\.closed\b", r"\.queue\b", r"is_alive|\.join\(|\.wait\(|\.poll\(", r"returncode", r"read_queue|readlines|iterqueue|read\(", r"close_writer|close_reader|_write_fd|_read_fd|_lock", r"os\.read|queue\.(put|get)", r"\.start\(", r"time\.sleep|sleep\(", r"hasattr\(self", r"prevs_are_closed|_closed_handle_cache|\.lines\b|_raw_output|\.ended\b|yield", r"sys\.std(out|err)|getattr\(sys|setattr\(sys|safe_fdclose\(|_REDIRECT|redirect_std|registry|handle\.close"],
         )
     return codes
 
@@ -117,9 +131,41 @@ def _expected(shape):
 
 
 def _body(s):
-    from xonsh.built_ins import subproc_captured_object, subproc_captured_stdout
+    import io
+    import os
+    import sys
+
+    import xonsh.procs.proxies as X
 
     kind, stages = SHAPES[_SHAPE]
+    # the session's own standard streams are played by sacrificial objects: a schedule that closes
+    # or loses them must not take the checker's streams with it
+    real = (sys.stdout, sys.stderr, X.STDOUT_DISPATCHER.default, X.STDERR_DISPATCHER.default)
+    sac_out = io.TextIOWrapper(open(os.devnull, "wb"))
+    sac_err = io.TextIOWrapper(open(os.devnull, "wb"))
+    sys.stdout, sys.stderr = sac_out, sac_err
+    X.STDOUT_DISPATCHER.default, X.STDERR_DISPATCHER.default = sac_out, sac_err
+    X.STDOUT_DISPATCHER.registry.clear()
+    X.STDERR_DISPATCHER.registry.clear()
+    for red in (getattr(X, "_STDOUT_REDIRECT", None), getattr(X, "_STDERR_REDIRECT", None)):
+        if red is not None:
+            red._count, red._saved = 0, None
+    try:
+        res = _commands(s, kind, stages)
+        res["std"] = {"stdout_is_sessions": sys.stdout is sac_out, "stderr_is_sessions": sys.stderr is sac_err, "stdout_closed": sac_out.closed, "stderr_closed": sac_err.closed, "stdout_now": type(sys.stdout).__name__, "stderr_now": type(sys.stderr).__name__}
+        return res
+    finally:
+        sys.stdout, sys.stderr, X.STDOUT_DISPATCHER.default, X.STDERR_DISPATCHER.default = real
+        for f in (sac_out, sac_err):
+            try:
+                f.close()
+            except Exception:  # noqa: BLE001
+                pass
+
+
+def _commands(s, kind, stages):
+    from xonsh.built_ins import subproc_captured_object, subproc_captured_stdout
+
     names = []
     for i, st in enumerate(stages):
         n = f"al{i}"
@@ -130,7 +176,12 @@ def _body(s):
         if i:
             cmds.append("|")
         cmds.append([n])
-    if kind == "stdout2":
+    if kind.startswith("pipe-then-capture"):
+        outs = [subproc_captured_stdout(*cmds)]
+        for _ in range(2 if kind.endswith("2") else 1):
+            outs.append(subproc_captured_stdout([names[0]]))
+        res = {"out": "|".join(outs), "rtn": _XSH.lastcmd.rtn if getattr(_XSH, "lastcmd", None) is not None else None}
+    elif kind == "stdout2":
         out1 = subproc_captured_stdout(*cmds)
         out2 = subproc_captured_stdout(*cmds)
         res = {"out": out1 + "|" + out2, "rtn": _XSH.lastcmd.rtn if getattr(_XSH, "lastcmd", None) is not None else None}
@@ -166,6 +217,22 @@ def _check(r, prefix):
     v = r.value
     out = v["out"]
     stages = SHAPES[_SHAPE][1]
+    std = v.get("std") or {}
+    if std.get("stdout_closed") or std.get("stderr_closed"):
+        V("session-std-streams-closed", "a command leaves the session able to run the next one (its own sys.stdout / sys.stderr are not closed under it)", std, "both open")
+    elif std and not (std["stdout_is_sessions"] and std["stderr_is_sessions"]):
+        V("session-std-streams-replaced", "a command leaves the session able to run the next one (sys.stdout / sys.stderr are the session's streams again)", std, "the streams that were installed before the command")
+    if kind.startswith("pipe-then-capture"):
+        n_after = 2 if kind.endswith("2") else 1
+        parts = (out or "").split("|")
+        want_first = "a"
+        if len(parts) != 1 + n_after or parts[0].replace("B:", "") != want_first or any(p != "a" for p in parts[1:]):
+            V(f"output-differs:{kind}", "captured output is exactly what the command wrote", out, "|".join(["B:a"] + ["a"] * n_after))
+        if v.get("threads_left"):
+            V(f"helper-threads-left:{kind}", "helper threads end with the command", v["threads_left"], [])
+        if v["rtn"] != 0:
+            V(f"returncode:{kind}", "the reported return code is the final stage's", v["rtn"], 0)
+        return viols
     if len(stages) == 1:
         want = exp.replace("\r\n", "\n").replace("\r", "\n")
         if kind in ("stdout", "stdout2") and want.endswith("\n") and want.count("\n") == 1:
